@@ -162,7 +162,7 @@ namespace sqf::parser::config
                     if (is_match_repeated<2, '/'>(iter))
                     {
                         // find line comment end
-                        while (!is_match<'\n'>(++iter));
+                        do { ++iter; } while (iter < m_end && !is_match<'\n'>(iter));
 
                         // update position info
                         m_line++;
@@ -179,7 +179,7 @@ namespace sqf::parser::config
                         ++iter;
                         ++iter;
                         // find block comment end
-                        while (!(is_match<'*'>(iter) && is_match<'/'>(iter + 1)))
+                        while (iter < m_end && !(is_match<'*'>(iter) && is_match<'/'>(iter + 1)))
                         {
                             // update position info
                             if (!is_match<'\n'>(iter))
@@ -194,11 +194,12 @@ namespace sqf::parser::config
                             ++iter;
                         }
 
-                        // EOF check
-                        if (is_match<'/'>(iter) && is_match<'/'>(iter + 1))
+                        // The terminator is part of the comment (there is none at the end of input)
+                        if (is_match<'*'>(iter) && is_match<'/'>(iter + 1))
                         {
                             ++iter;
                             ++iter;
+                            m_column += 2;
                         }
                         // set length
                         len = iter - m_current;
